@@ -9,7 +9,7 @@
    exit code at any point).  `None` = the schedule ended before the call
    returned; `Some (Done r)` = it returned r; `Some (Fail e)` = it raised. *)
 From Coq Require Import ZArith List Bool Arith Lia Permutation.
-From Sky Require Import Result G_parallel M_Parallel P_Parallel P_ParallelLoud P_ParallelTop P_ParallelPerm P_ParallelFair.
+From Sky Require Import Result G_parallel M_Parallel P_Parallel P_ParallelLoud P_ParallelTop P_ParallelPerm P_ParallelFair M_ParallelNcpu P_ParallelNcpu.
 Import ListNotations.
 Local Open Scope nat_scope.
 
@@ -403,3 +403,32 @@ Proof.
   intros p Hp. assert (p = 1) by lia. subst. right. left.
   split; [eexists; reflexivity|cbn; auto].
 Qed.
+
+(* ---- extension: get_ncpu (the number of processes handed to parallelize) ---- *)
+
+(* get_ncpu returns the first setting that is not None among the local one, the
+   configured one and 1; TypeError if that is no int, ValueError if it is < 1 *)
+Theorem C09_get_ncpu : forall (cfg local : nval),
+  get_ncpu cfg local =
+  match (match local with VNone => match cfg with VNone => VInt 1 | v => v end | v => v end) with
+  | VInt z => if (z <? 1)%Z then Err ValueError else Ok z
+  | _ => Err TypeError
+  end.
+Proof. exact get_ncpu_spec. Qed.
+Print Assumptions C09_get_ncpu.
+
+(* a number accepted by get_ncpu is >= 1 and is never rejected by parallelize *)
+Theorem C09_get_ncpu_parallelize : forall (A R : Type) (cfg local : nval) (n : Z) (f : A -> res R)
+    (args : list A) (sched : list action),
+  get_ncpu cfg local = Ok n ->
+  (1 <= n)%Z /\ parallelize f args n sched <> Some (Fail BadNcpu).
+Proof.
+  intros A R cfg local n f args sched H.
+  exact (conj (proj1 (get_ncpu_ok cfg local n H)) (get_ncpu_parallelize cfg local n f args sched H)).
+Qed.
+Print Assumptions C09_get_ncpu_parallelize.
+
+Example C09_ex_get_ncpu :
+  get_ncpu (VInt 4) VNone = Ok 4%Z /\ get_ncpu (VInt 4) (VInt 2) = Ok 2%Z /\ get_ncpu VNone VNone = Ok 1%Z /\
+  get_ncpu (VInt 0) VNone = Err ValueError /\ get_ncpu VNone VBad = Err TypeError.
+Proof. vm_compute. repeat split; reflexivity. Qed.
